@@ -122,11 +122,12 @@ def rule_nest(c: Ctx) -> RuleResult:
             rd = Reaching(cfg)
             caps: list[tuple[Node, str]] = []
             for n in cfg.nodes:
-                if n.kind == "test" and isinstance(n.ast, ast.Compare) and len(n.ast.ops) == 1 and f"{st}.level" in U(n.ast.left):
-                    if _reads_option(c, g, n.ast.comparators[0], "maxNesting", n.ast, rd):
-                        lab = {ast.Lt: "T", ast.LtE: "T", ast.Gt: "F", ast.GtE: "F"}.get(type(n.ast.ops[0]))
-                        if lab:
-                            caps.append((n, lab))
+                from ..syn import cmp_oriented
+                co = cmp_oriented(n.ast, lambda e: f"{st}.level" in U(e)) if n.kind == "test" else None
+                if co is not None and _reads_option(c, g, co[2], "maxNesting", n.ast, rd):
+                    lab = {ast.Lt: "T", ast.LtE: "T", ast.Gt: "F", ast.GtE: "F"}.get(co[1])
+                    if lab:
+                        caps.append((n, lab))
             ok = bool(caps) and all(any(_edge_dominated(cfg, t, lab, dn) for (t, lab) in caps) for dn in cfg.owner(call))
             key = f"{g.short}|{cs.kind}"
             r.add(key, c.where(g, call), g.short, U(call), "discharged" if ok else "violation",
@@ -572,9 +573,12 @@ def _companions(fn: ast.AST, flags: set[str]) -> dict[int, set[str]]:
     return out
 
 
+_ADJ = ("read only when the character after the marker is a tab (state.src[pos] == '\\t' re-tested), in which case the same test "
+        "assigned it in the preceding block")
 DEF_EXEMPT = {
-    ("blockquote", "adjustTab"): "read only when the character after the marker is a tab (state.src[pos] == '\\t' re-tested), in "
-                                 "which case the same test assigned it in the preceding block",
+    # keyed by the function and the alpha-normalised *use* (locals replaced by where their values come from)
+    ("blockquote", "L_expr_ + state.bsCount[P1] + (1 if L_lit_ else 0)"): _ADJ,
+    ("blockquote", "L_expr_ + state.bsCount[L_expr_] + (1 if L_lit_ else 0)"): _ADJ,
 }
 
 
@@ -660,16 +664,27 @@ def rule_def(c: Ctx) -> RuleResult:
                     r.add(key, c.where(f, ld), f.short, ld.id, "discharged",
                           "trivial: parameter" if ld.id in params else "definitely assigned on every path to each of its reads")
                 continue
-            if (f.short, ld.id) in DEF_EXEMPT:
+            ek = (f.short, _def_use_key(f, ld))
+            if ek in DEF_EXEMPT:
                 k2 = key + "|exempt"
                 if k2 not in seen_keys:
                     seen_keys.add(k2)
-                    r.add(key, c.where(f, ld), f.short, ld.id, "exempt", DEF_EXEMPT[(f.short, ld.id)])
+                    r.add(key, c.where(f, ld), f.short, ld.id, "exempt", DEF_EXEMPT[ek])
                 continue
             r.add(key + f"|{alpha(f, _stmt_of(f, ld))[:60]}", c.where(f, ld), f.short, ld.id, "violation",
                   f"local `{ld.id}` may be read before assignment on some path to this use (UnboundLocalError)")
     r.floor = 300
     return r
+
+
+def _def_use_key(f: Func, ld: ast.Name) -> str:
+    """Alpha-normalised text of the smallest arithmetic expression around a use (robust to renaming of locals)."""
+    p = ld
+    while p in f.module.parents and not isinstance(f.module.parents[p], ast.stmt):
+        p = f.module.parents[p]
+        if isinstance(p, ast.BinOp):
+            return alpha(f, p)
+    return alpha(f, ld)
 
 
 def _stmt_of(f: Func, n: ast.AST) -> ast.AST:
